@@ -34,7 +34,9 @@ def main(tier: str, seed: int) -> int:
              "random, F_edge incl. loops ending in a fork and several start events; S1 and S2 "
              "job sets; plus - beyond F - definitions where all branches of one AND/OR fork end "
              "in the same event type, which provokes branch counts) is run through a strict pushdown checker of the dialect and its event "
-             "names compared with the input event types. distinct = distinct (definition, "
+             "names compared with the input event types; plus calls of pv_streams_to_puml_files "
+             "that emit three job names at once (each file judged against its own jobs). "
+             "distinct = distinct (definition, "
              "stratum, k, size); trivial = no fork or loop")
     chk.assumptions = [
         "janus stand-in /verif/shim; dialect = statements the emitter and the corpus use "
@@ -46,6 +48,53 @@ def main(tier: str, seed: int) -> int:
     hs = [(seed + 200 + i) % 4096 for i in range(8)]
     chk.extra["hashseeds"] = hs
     lcheck.run(chk, cases, ASPECTS, hashseeds=hs, skip_no_output=True)
+    # several job names emitted by one call: every file must describe its own jobs only
+    import random
+    from vlib import core as _core
+    rng = random.Random(f"c05-multi-{seed}")
+    pool = [c for c in cases if c["stratum"] == "S1" and c["kind"] in ("core-exh", "core-rand")
+            and len(c["jobs"]) <= 12 and c.get("variant") == "base"]
+    rng.shuffle(pool)
+    nmulti = 12 if tier == "quick" else 150
+    wd = _core.work_dir()
+    multi = []
+    for i in range(nmulti):
+        parts = pool[3 * i:3 * i + 3]
+        if len(parts) < 2:
+            break
+        multi.append({"parts": [{"name": f"wf{k} {p['name']}", "jobs": p["jobs"], "tags": p["tags"]}
+                                for k, p in enumerate(parts)],
+                      "rng_seed": f"{seed}-multi-{i}", "uuid_seed": f"{seed}-multi-{i}",
+                      "work_dir": wd})
+    mres, mnotes = _core.run_workers("vlib.present", "run_multi_job_case", multi,
+                                     hashseeds=hs, chunks_per_proc=1, timeout=3000)
+    for n in mnotes:
+        chk.note_inconclusive(n)
+    mobs = {"calls": 0, "files_checked": 0}
+    for r in mres:
+        c = multi[r["_idx"]]
+        if r.get("status") != "ok":
+            chk.note_inconclusive(f"multi-job call: {r.get('status')} {r.get('detail')}")
+            continue
+        mobs["calls"] += 1
+        for k, part in enumerate(r["parts"]):
+            tags = list(c["parts"][k]["tags"]) + ["multi-job-call"]
+            w = {"multi_job_case": c, "part": part["name"], "result": part}
+            if not part.get("emitted"):
+                chk.violation("multi-job-call:file-not-emitted", w, tags)
+                continue
+            mobs["files_checked"] += 1
+            chk.case(_core.digest(["multi", c["rng_seed"], part["name"]]), True)
+            for pr in part["problems"]:
+                chk.violation("malformed:" + pr["kind"], w, tags)
+            if part["missing"]:
+                chk.violation("names:event-missing-from-diagram", w, tags)
+            if part["extra"]:
+                chk.violation("names:placeholder-leaked" if part["leaked"]
+                              else "names:event-not-in-input", w, tags)
+    chk.extra["multi_job_calls"] = mobs
+    if mobs["files_checked"] == 0:
+        chk.note_inconclusive("no file of a multi-job call was checked")
     emitted = chk.evaluations - chk.extra.get("learner_failures", 0)
     chk.extra["texts_checked"] = emitted
     if emitted < chk.evaluations * 0.8:
@@ -54,4 +103,24 @@ def main(tier: str, seed: int) -> int:
 
 
 def replay(path: str) -> int:
+    import json
+    with open(path) as fh:
+        data = json.load(fh)
+    if "multi_job_case" in data.get("case", {}):
+        from vlib import core as _core
+        c = dict(data["case"]["multi_job_case"], work_dir=_core.work_dir())
+        res, _ = _core.run_workers("vlib.present", "run_multi_job_case", [c], nproc=1)
+        bad = False
+        for r in res:
+            for part in r.get("parts", []):
+                probs = [p["kind"] for p in part.get("problems", [])]
+                if not part.get("emitted") or probs or part.get("missing") or part.get("extra"):
+                    bad = True
+                    print(part["name"], "emitted" if part.get("emitted") else "NOT EMITTED", probs,
+                          "missing", part.get("missing"), "extra", part.get("extra"))
+                    print(part.get("puml", ""))
+        if bad:
+            print(f"VIOLATION property={PROP} replay={path}")
+            return 1
+        return 0 if res else 2
     return lcheck.replay_case(PROP, path, ASPECTS)
